@@ -4,6 +4,7 @@
    any interleaving of the receive, worker, responder and send steps, any behaviour of the implementation. *)
 From Coq Require Import NArith List Bool PeanoNat.
 From V9 Require Import Lib.GoSem Gen.Consts Srv.Conc Srv.ConcProofs.
+From V9 Require Srv.FidRef Srv.FidRefProofs.
 From V9 Require Srv.Seq.
 From Coq Require Import ZArith.
 Import ListNotations.
@@ -43,3 +44,60 @@ Example C11_close_destroys_each_fid_once :
   let ft := [(0%N, Seq.mkFid 1%Z false 0%N 128%N 5%N 0%N); (7%N, Seq.mkFid 1%Z true 0%N 0%N 5%N 0%N)] in
   close_fids ft (map fst ft) = ([], [Seq.EvDestroy 0%N; Seq.EvDestroy 7%N]).
 Proof. vm_compute. reflexivity. Qed.
+
+
+(* ---- fids, with requests still executing at the disconnect (Srv/FidRef.v: every label is one
+   critical section of FidNew / FidGet / retain / unlink / DecRef / Conn.close; any request may
+   take any step it is entitled to at any time) ---- *)
+
+(* once the connection is closed, the close loop has run and every request has returned, every
+   fid ever created on it has been reported destroyed exactly once and the table is empty *)
+Theorem C11_all_fids_destroyed_exactly_once : forall s,
+  FidRef.reach true s -> FidRef.quiescent s ->
+  (forall o, In o (FidRef.objs s) -> FidRef.o_destroyed o = 1) /\ FidRef.table s = [].
+Proof. exact FidRefProofs.quiescent_all_destroyed_once. Qed.
+Print Assumptions C11_all_fids_destroyed_exactly_once.
+
+(* never twice, in any reachable state *)
+Theorem C11_fid_destroyed_at_most_once : forall s i o,
+  FidRef.reach true s -> nth_error (FidRef.objs s) i = Some o -> FidRef.o_destroyed o + FidRef.o_pend o <= 1.
+Proof. exact FidRefProofs.destroyed_or_pending_at_most_once. Qed.
+Print Assumptions C11_fid_destroyed_at_most_once.
+
+(* never while a request still holds a counted reference to it *)
+Theorem C11_no_reference_to_destroyed_fid : forall s i o,
+  FidRef.reach true s -> nth_error (FidRef.objs s) i = Some o -> 0 < FidRef.o_held o + FidRef.o_owed o ->
+  FidRef.o_dead o = false /\ FidRef.o_destroyed o = 0 /\ FidRef.o_pend o = 0.
+Proof. exact FidRefProofs.no_reference_to_destroyed_fid. Qed.
+Print Assumptions C11_no_reference_to_destroyed_fid.
+
+(* the reference count is exactly the number of holders (requests, pending unlinks, the table) *)
+Theorem C11_refcount_is_number_of_holders : forall s i o,
+  FidRef.reach true s -> nth_error (FidRef.objs s) i = Some o ->
+  FidRef.o_rc o = Z.of_nat (FidRef.o_held o + FidRef.o_owed o + (if FidRef.o_linked o then 1 else 0)).
+Proof. exact FidRefProofs.refcount_is_number_of_holders. Qed.
+Print Assumptions C11_refcount_is_number_of_holders.
+
+(* the close loop and a pending destroy are never stuck *)
+Theorem C11_close_loop_progress : forall s i,
+  FidRef.reach true s -> In i (FidRef.snap s) -> FidRef.step true s (FidRef.LUnlinkClose i) <> None.
+Proof. exact FidRefProofs.close_loop_progress. Qed.
+Print Assumptions C11_close_loop_progress.
+
+(* the reference counting before the repair (7f592a2) violates this: reachable schedules in which a
+   fid is reported destroyed twice at a disconnect, never, or twice after a racing lookup *)
+Theorem C11_old_double_destroy_at_disconnect : exists ls s o,
+  FidRef.run false FidRef.init ls = Some s /\ In o (FidRef.objs s) /\ FidRef.o_destroyed o = 2.
+Proof. exact FidRefProofs.old_double_destroy_at_disconnect. Qed.
+Print Assumptions C11_old_double_destroy_at_disconnect.
+
+Theorem C11_old_leak_after_disconnect : exists ls s o,
+  FidRef.run false FidRef.init ls = Some s /\ FidRef.quiescent s /\ In o (FidRef.objs s) /\ FidRef.o_destroyed o = 0.
+Proof. exact FidRefProofs.old_leak_after_disconnect. Qed.
+Print Assumptions C11_old_leak_after_disconnect.
+
+(* non-vacuity: a quiescent state with a fid created before, during and after the disconnect *)
+Theorem C11_quiescent_reachable : exists ls s,
+  FidRef.run true FidRef.init ls = Some s /\ FidRef.quiescent s /\ length (FidRef.objs s) = 3.
+Proof. exact FidRefProofs.quiescent_reachable. Qed.
+Print Assumptions C11_quiescent_reachable.
